@@ -174,6 +174,13 @@ def date_sources(name, mod, rng, k, require_valid=True):
                     out.append(cand)
                     if cand[-2:].isdigit():
                         out.extend(cand[:-2] + '%02d' % e for e in range(100))
+                    # the sign between date and serial carries the century in some formats (- / +, or none)
+                    for a, b2 in (('-', '+'), ('+', '-')):
+                        if a in cand[1:-1]:
+                            alt = cand.replace(a, b2, 1)
+                            out.append(alt)
+                            if alt[-1:].isdigit():
+                                out.extend(alt[:-1] + str(e) for e in range(10))
                     continue
                 if C.outcome(mod.is_valid, cand) != ('ok', True):
                     cand = C._repair(mod, cand)
